@@ -359,8 +359,8 @@ class Arnoldi(KrylovBased):
         Returns
         -------
         E0s : numpy array
-            Best eigenvalue estimates, :cfg:option:`Arnoldi.num_ev` entries,
-            sorted according to :cfg:option:`Arnoldi.which`.
+            Best eigenvalue estimates, :cfg:option:`Arnoldi.num_ev` entries (less if the Krylov space
+            has a smaller dimension `N`), sorted according to :cfg:option:`Arnoldi.which`.
         psis : list of :class:`~tenpy.linalg.np_conserved.Array`
             Corresponding best eigenvectors (estimates).
         N : int
@@ -369,7 +369,7 @@ class Arnoldi(KrylovBased):
         """
         assert self.N_cache >= self.N_max
         N = self._build_krylov()
-        E0 = self.Es[N - 1, : self.num_ev]
+        E0 = self.Es[N - 1, : min(N, self.num_ev)]  # there are only N Ritz values
         if self.E_shift is not None:
             E0 = E0 - self.E_shift
         if N == 1:
